@@ -132,17 +132,42 @@ func e2eOptions(run *evid.Run, rng *rand.Rand, rounds int) int {
 				from = pick() + fmt.Sprint(mask) + "@" + pick() + ".test"
 				to = pick() + fmt.Sprint(mask) + "@x" + pick() + ".example"
 			}
+			// a quarter of the envelopes follow, on the same connection, a MAIL and a RCPT
+			// that carried every option and were refused by the backend: nothing of a
+			// refused command belongs to the next one
+			after := mask%4 == 2
+			var errPre error
+			if after {
+				refusal := &smtp.SMTPError{Code: 550, EnhancedCode: smtp.EnhancedCode{5, 7, 1}, Message: "not this one"}
+				srv.BE.Lock()
+				srv.BE.MailErrs = []error{refusal}
+				srv.BE.RcptErrs = []error{refusal}
+				srv.BE.Unlock()
+				pa := "pre@x.test"
+				if err := cl.Mail("refused@x.test", &smtp.MailOptions{Size: 4096, RequireTLS: true, UTF8: utf8Srv, Return: smtp.DSNReturnHeaders, EnvelopeID: "pre", Auth: &pa}); err == nil {
+					errPre = fmt.Errorf("the MAIL the backend refuses was accepted")
+				}
+			}
 			errM := cl.Mail(from, mo)
 			var errR error
+			if errM == nil && after {
+				if err := cl.Rcpt("refused@x.test", &smtp.RcptOptions{Notify: []smtp.DSNNotify{smtp.DSNNotifySuccess}, OriginalRecipientType: smtp.DSNAddressTypeRFC822, OriginalRecipient: "pre@x.test",
+					RequireRecipientValidSince: time.Unix(1500000000, 0)}); err == nil {
+					errPre = fmt.Errorf("the RCPT the backend refuses was accepted")
+				}
+			}
 			if errM == nil {
 				errR = cl.Rcpt(to, ro)
+			}
+			if errPre != nil {
+				evid.Inconclusive("C14 e2e: %v", errPre)
 			}
 			// (the client calls are synchronous: the callbacks precede the replies)
 			calls := srv.BE.Calls()
 			cn.Raw.Close()
 			srv.Stop()
 			n++
-			ctx := fmt.Sprintf("MailOptions %+v (auth %v) RcptOptions %+v, server SMTPUTF8=%v", *mo, derefS(mo.Auth), *ro, utf8Srv)
+			ctx := fmt.Sprintf("MailOptions %+v (auth %v) RcptOptions %+v, server SMTPUTF8=%v, after a refused MAIL/RCPT with every option: %v", *mo, derefS(mo.Auth), *ro, utf8Srv, after)
 			rp := map[string]interface{}{"engine": "c14-e2e", "mail": mo, "rcpt": ro, "utf8": utf8Srv}
 			if errM != nil || errR != nil {
 				run.Report(evid.Div{Prop: "C14", Key: fmt.Sprintf("c14:e2e:refused:mask=%d", mask&(16|32|128)), Msg: fmt.Sprintf("%s: Mail -> %v, Rcpt -> %v", ctx, errM, errR), Replay: rp})
